@@ -18,9 +18,15 @@ a child below min_points, a cluster below min_points is never split, predict in 
     the final labelling and the predicted labels form a trace that TLC validates against HGMTrace.tla
     (which conjoins the original HGMSplit actions), batched per JVM.
 
-Only MONITORED (not decided by the model, labelled `monitor:` in the evidence): the EM mixture
+Decided relationally (specs/GMMPair.tla, replication_part): "integer sample weights are equivalent to
+replicating points" for GaussianMixture - fit(X, k) and fit(repeat(X, k)) run in lock-step at the grain of one
+EM iteration (same k-means++ picks, equal parameters / lower bound up to 1e-9 after every iteration, same
+convergence decisions, same fitted model, predictions and BIC).  The hierarchical model is not coupled
+(bic() ignores sample weights by construction, so replication legitimately changes the split decisions).
+
+Only MONITORED (not decided by the model, labelled `monitor:` in the evidence): the other EM mixture
 predicates of the first sentence, logged for every real GaussianMixture.fit ('full' and 'diag').
-Not addressed: integer weights == replication.  Excluded: 'tied' / 'spherical'.
+Excluded: 'tied' / 'spherical'.
 """
 import contextlib
 import io
@@ -893,6 +899,352 @@ def validate_batch(traces, diagnose=True):
     return verdicts, totals
 
 
+# --------------------------------------------------------------------------- replication clause (relational, GMMPair.tla)
+def make_pair_logger(np, real, rec):
+    """Logging subclass for the two-run coupling: records the initial picks (as row indices, observed on the
+    data array itself), the uniforms drawn, the initial parameters and, per EM iteration, the M-step output
+    and the lower bound."""
+
+    class PickView(np.ndarray):
+        def __array_finalize__(self, obj):
+            self._src = False
+
+        def __getitem__(self, idx):
+            if getattr(self, "_src", False) and isinstance(idx, (int, np.integer)):
+                rec["picks"].append(int(idx))
+            return super().__getitem__(idx)
+
+    class RngProxy:
+        def __init__(self, inner):
+            self.inner = inner
+
+        def rand(self, *a):
+            v = self.inner.rand(*a)
+            rec["r"].append(float(v))
+            return v
+
+        def __getattr__(self, name):
+            return getattr(self.inner, name)
+
+    class PairGaussianMixture(real):
+        def fit(self, X, sample_weight=None):
+            rec.update(picks=[], r=[], init=None, iters=[], stage="pre", cur=None)
+            try:
+                return super().fit(X, sample_weight)
+            finally:
+                rec["stage"] = "done"
+
+        def _initialize_parameters(self, X, sample_weight):
+            rec["stage"] = "init"
+            v = np.asarray(X).view(PickView)
+            v._src = True
+            had = "_rng" in self.__dict__
+            inner = getattr(self, "_rng", np.random)
+            self._rng = RngProxy(inner)
+            try:
+                out = super()._initialize_parameters(v, sample_weight)
+            finally:
+                if had:
+                    self._rng = inner
+                else:
+                    del self._rng
+            out = tuple(np.array(o, dtype=float) for o in out)
+            rec["init"] = out
+            rec["init_sw"] = np.array(sample_weight, dtype=float)
+            rec["stage"] = "em"
+            return out
+
+        def _m_step(self, X, responsibilities, sample_weight):
+            out = super()._m_step(X, responsibilities, sample_weight)
+            if rec["stage"] == "em":
+                rec["cur"] = tuple(np.array(o, dtype=float) for o in out)
+            return out
+
+        def _compute_lower_bound(self, X, weights, means, covariances, sample_weight):
+            v = super()._compute_lower_bound(X, weights, means, covariances, sample_weight)
+            if rec["stage"] == "em":
+                rec["iters"].append(rec["cur"] + (float(v),))
+                rec["cur"] = None
+            return v
+
+    return PairGaussianMixture
+
+
+def gen_pair_case(np, seed, j, attempt):
+    rng = np.random.RandomState((seed * 1000003 + j * 104729 + attempt * 15485863 + 1515) % (2 ** 32))
+    d = 1 + j % 3
+    K = [2, 3, 2, 3, 2, 1][(j // 3) % 6]
+    ctype = "diag" if (j // 2) % 3 == 2 else "full"
+    n = int(rng.randint(20, 121))
+    nb = max(K, 2)
+    layout = ["overlapping", "separated", "overlapping"][(j // 6) % 3]
+    sep = float(rng.choice([1.0, 1.5, 2.0, 2.5])) if layout == "overlapping" else float(rng.choice([6.0, 9.0]))
+    dirs = rng.randn(nb, d)
+    dirs /= np.linalg.norm(dirs, axis=1, keepdims=True) + 1e-12
+    cen = np.cumsum(dirs * sep, axis=0)
+    X = cen[rng.randint(nb, size=n)] + rng.randn(n, d)
+    wk = ["uniform15", "skewed", "geometric", "onebig"][(j // 4) % 4]
+    if wk == "uniform15":
+        k = rng.randint(1, 6, size=n)
+    elif wk == "skewed":
+        k = np.where(rng.rand(n) < 0.85, 1, 5)
+    elif wk == "geometric":
+        k = np.minimum(rng.geometric(0.5, size=n), 5)
+    else:
+        k = rng.randint(1, 3, size=n)
+        k[rng.randint(n)] = 5
+    return dict(j=j, attempt=attempt, d=d, K=K, ctype=ctype, n=n, layout=layout, sep=sep, wkind=wk, X=X, k=k.astype(int),
+                random_state=int(rng.randint(0, 1000)))
+
+
+def _pair_case(args):
+    """Worker: fit(X, k) and fit(repeat(X, k)) with the logging subclass; returns both logs."""
+    seed, j, attempt = args
+    np, cluster = _G["np"], _G["cluster"]
+    c = gen_pair_case(np, seed, j, attempt)
+    return run_pair(c)
+
+
+def run_pair(c):
+    np, cluster = _G["np"], _G["cluster"]
+    X, k = c["X"], c["k"]
+    owner = np.repeat(np.arange(len(X)), k)
+    Xr = X[owner]
+    out = {"case": {q: c[q] for q in ("j", "attempt", "d", "K", "ctype", "n", "layout", "sep", "wkind", "random_state")},
+           "X": X, "k": k, "raised": None, "runs": []}
+    for which, (data, sw) in (("A", (X, k.astype(float))), ("B", (Xr, None))):
+        rec = {}
+        G = make_pair_logger(np, cluster.GaussianMixture, rec)
+        g = G(n_components=c["K"], covariance_type=c["ctype"], n_init=1, random_state=c["random_state"])
+        with warnings.catch_warnings():
+            warnings.simplefilter("ignore")
+            old = np.seterr(all="ignore")
+            try:
+                g.fit(data, sw)
+                pred = np.asarray(g.predict(X))
+                bic = float(g.bic(X))
+            except Exception as ex:
+                out["raised"] = f"run {which}: {ex!r}"
+                return out
+            finally:
+                np.seterr(**old)
+        picks = [int(owner[p]) for p in rec["picks"]] if which == "B" else list(rec["picks"])
+        out["runs"].append({"picks": picks, "r": rec["r"], "init": rec["init"], "init_sw": rec["init_sw"], "iters": rec["iters"],
+                            "fitted": (np.array(g.weights_, dtype=float), np.array(g.means_, dtype=float), np.array(g.covariances_, dtype=float)),
+                            "n_iter": int(g.n_iter_), "pred": pred, "bic": bic, "tol": float(g.tol), "max_iter": int(g.max_iter)})
+    return out
+
+
+RTOL = 1e-9
+
+
+def _close(np, x, y, floor=0.0):
+    x, y = np.asarray(x, dtype=float), np.asarray(y, dtype=float)
+    if x.shape != y.shape:
+        return False
+    nx, ny = np.isnan(x), np.isnan(y)
+    if np.any(nx != ny):
+        return False
+    if np.all(nx):
+        return True
+    scale = max(float(np.nanmax(np.abs(x))), float(np.nanmax(np.abs(y))), floor)
+    return bool(np.nanmax(np.abs(x - y)) <= RTOL * scale)
+
+
+def pick_tie(np, X, sw, picks, rs):
+    """Is some uniform draw within rounding of a cumulative-weight boundary (the picked point is then not
+    determined by the coupling)?  Re-derives the pick intervals from the recorded picks."""
+    tie = False
+    for t, r in enumerate(rs):
+        if t == 0:
+            p = sw
+        else:
+            dist = np.min([np.sum((X - X[j]) ** 2, axis=1) for j in picks[:t]], axis=0)
+            p = dist * sw
+            p = p / np.sum(p)
+        cs = np.cumsum(p)
+        if float(np.min(np.abs(cs - r * cs[-1]))) <= 1e-12 * float(cs[-1]):
+            tie = True
+    return tie
+
+
+def project_gmm_pair(np, o):
+    """Project the two logs into the GMMPair.tla input (+ diagnostics kept in the replay file)."""
+    A, B = o["runs"]
+    tol = A["tol"]
+
+    def gaps(run):
+        out, prev = [], -math.inf
+        for it in run["iters"]:
+            g = it[3] - prev
+            out.append(g)
+            if not (g < tol):
+                prev = it[3]
+        return out
+
+    ga, gb = gaps(A), gaps(B)
+    vals = sorted({v for v in ga + gb + [tol] if not math.isnan(v)})
+    rank = {v: i + 1 for i, v in enumerate(vals)}
+    rk = lambda v: -1 if math.isnan(v) else rank[v]  # noqa: E731
+    a, b = [], []
+    worst = 0.0
+    for t in range(max(len(A["iters"]), len(B["iters"]))):
+        ia = A["iters"][t] if t < len(A["iters"]) else None
+        ib = B["iters"][t] if t < len(B["iters"]) else None
+        if ia is not None:
+            a.append({"w": 2 * t, "mu": 2 * t, "cov": 2 * t, "lb": 2 * t, "gap": rk(ga[t])})
+        if ib is not None:
+            if ia is None:
+                b.append({"w": 2 * t + 1, "mu": 2 * t + 1, "cov": 2 * t + 1, "lb": 2 * t + 1, "gap": rk(gb[t])})
+            else:
+                b.append({"w": 2 * t + (0 if _close(np, ia[0], ib[0]) else 1), "mu": 2 * t + (0 if _close(np, ia[1], ib[1]) else 1),
+                          "cov": 2 * t + (0 if _close(np, ia[2], ib[2]) else 1), "lb": 2 * t + (0 if _close(np, ia[3], ib[3], floor=1.0) else 1),
+                          "gap": rk(gb[t])})
+                for q in range(3):
+                    if np.shape(ia[q]) == np.shape(ib[q]) and np.all(np.isfinite(ia[q])) and np.all(np.isfinite(ib[q])):
+                        worst = max(worst, float(np.max(np.abs(ia[q] - ib[q])) / max(float(np.max(np.abs(ia[q]))), 1e-300)))
+    init_same = all(_close(np, x, y) for x, y in zip(A["init"], B["init"]))
+
+    def last_is_fitted(run):
+        if not run["iters"]:
+            return False
+        return all(np.array_equal(x, y, equal_nan=True) for x, y in zip(run["iters"][-1][:3], run["fitted"]))
+
+    fa, fb = A["fitted"], B["fitted"]
+    fin = {"nIterA": A["n_iter"], "nIterB": B["n_iter"], "lastA": last_is_fitted(A), "lastB": last_is_fitted(B),
+           "wa": 0, "wb": 0 if _close(np, fa[0], fb[0]) else 1, "ma": 0, "mb": 0 if _close(np, fa[1], fb[1]) else 1,
+           "ca": 0, "cb": 0 if _close(np, fa[2], fb[2]) else 1,
+           "pa": 0, "pb": 0 if np.array_equal(A["pred"], B["pred"]) else 1,
+           "ba": 0, "bb": 0 if _close(np, A["bic"], B["bic"], floor=1.0) else 1}
+    tie = pick_tie(np, o["X"], A["init_sw"], A["picks"], A["r"])
+    pair = {"picksA": A["picks"], "picksB": B["picks"], "pickTie": bool(tie), "sameUniforms": A["r"] == B["r"],
+            "init": {"a": 0, "b": 0 if init_same else 1}, "tol": rk(tol), "maxIter": A["max_iter"], "a": a, "b": b, "fin": fin}
+    # first iteration at which the convergence decisions differ, and how close the test was to a tie there
+    near_tie = False
+    for t in range(min(len(ga), len(gb))):
+        sa, sb = ga[t] < tol, gb[t] < tol
+        if sa != sb:
+            m = max(abs(ga[t] - tol), abs(gb[t] - tol))
+            near_tie = m <= 1e-9 * max(1.0, abs(A["iters"][t][3]))
+            break
+    diag = {"max_rel_param_diff_over_iterations": worst, "iters": (len(ga), len(gb)), "near_tie_at_first_decision_difference": bool(near_tie),
+            "uniforms": A["r"], "gapsA": ga[-3:], "gapsB": gb[-3:], "tol": tol}
+    return pair, diag
+
+
+GMM_CFG = "INIT Init\nNEXT Next\nINVARIANT TypeOK\nCHECK_DEADLOCK FALSE\n"
+
+
+def validate_gmm_pairs(pairs):
+    """Batch of projected pairs -> TLC (GMMPair.tla).  Returns (fails per pid, excluded pids, tlc totals)."""
+    if not pairs:
+        return {}, set(), {"states": 0, "generated": 0}
+    import shutil
+    work = tlc.scratch_dir("vgmm_")
+    path = os.path.join(work, "pairs.json")
+    with open(path, "w") as f:
+        json.dump(pairs, f)
+    try:
+        res = tlc.run_tlc("GMMPair", GMM_CFG, workers=1, env={"TRACE_FILE": path}, timeout=600)
+    finally:
+        shutil.rmtree(work, ignore_errors=True)
+    out = res.stdout
+    res.cleanup()
+    if res.status != "ok":
+        raise tlc.TLCFailure("GMMPair: unexpected TLC verdict " + res.violated + out[-1500:])
+    expected = sum(min(len(p["a"]), len(p["b"])) + 3 for p in pairs)
+    if res.distinct != expected:
+        raise tlc.TLCFailure(f"GMMPair consumed {res.distinct} states, expected {expected}\n{out[-2000:]}")
+    fails, excluded = {}, set()
+    for ln in out.splitlines():
+        if ln.startswith('<<"FAIL"'):
+            v = tla.parse_value(ln)
+            fails.setdefault(v[1], []).append({"i": v[2], "clauses": sorted(v[3])})
+        elif ln.startswith('<<"EXCLUDED"'):
+            excluded.add(tla.parse_value(ln)[1])
+    return fails, excluded, {"states": res.distinct, "generated": res.generated}
+
+
+def replication_part(ck, mp_pool=None):
+    """C15, "integer sample weights are equivalent to replicating points": relational trace validation of
+    fit(X, k) against fit(repeat(X, k)) (specs/GMMPair.tla).  Returns the evidence of this part."""
+    np = _G["np"]
+    t_start = time.time()
+    ncases = 36 if ck.tier == "quick" else 360
+    pending = [(j, 0) for j in range(ncases)]
+    ev = {"pairs_validated": 0, "pairs_coupled": 0, "excluded_pick_tie": 0, "inconclusive_near_ties": 0, "states": 0, "transitions": 0,
+          "tlc_runs": 0, "iterations_compared": 0, "multi_iteration_pairs": 0, "max_rel_param_diff": 0.0, "by_components": {}, "by_type": {}}
+    rounds = 0
+    while pending and rounds < 3:
+        rounds += 1
+        jobs = [(ck.seed, j, att) for j, att in pending]
+        outs = mp_pool.map(_pair_case, jobs, chunksize=1) if mp_pool is not None else [_pair_case(a) for a in jobs]
+        good, pairs, diags = [], [], []
+        for (j, att), o in zip(pending, outs):
+            rep = {"case": o["case"], "X": o["X"].tolist(), "k": o["k"].tolist()}
+            if o["raised"]:
+                ck.violation("replication:raised", f"GaussianMixture.fit raised in the weighted/replicated pair: {o['raised']} ({o['case']})", rep)
+                continue
+            p, dg = project_gmm_pair(np, o)
+            good.append(((j, att), o, rep))
+            pairs.append(p)
+            diags.append(dg)
+        fails, excluded, tot = validate_gmm_pairs(pairs)
+        ev["states"] += tot["states"]
+        ev["transitions"] += tot["generated"]
+        ev["tlc_runs"] += 1
+        nxt = []
+        for pid, (((j, att), o, rep), p, dg) in enumerate(zip(good, pairs, diags), start=1):
+            ev["pairs_validated"] += 1
+            rep = dict(rep, pair=p, diagnostics=dg)
+            if not p["sameUniforms"]:
+                ck.violation("replication:different-uniforms", f"the two fits with the same random_state drew different uniforms ({o['case']})", rep)
+                continue
+            if pid in excluded:
+                ev["excluded_pick_tie"] += 1
+                if att < 2:
+                    nxt.append((j, att + 1))
+                continue
+            f = fails.get(pid)
+            if f is None:
+                ev["pairs_coupled"] += 1
+                ev["iterations_compared"] += len(p["a"])
+                if len(p["a"]) >= 3:
+                    ev["multi_iteration_pairs"] += 1
+                ev["max_rel_param_diff"] = max(ev["max_rel_param_diff"], dg["max_rel_param_diff_over_iterations"])
+                c = o["case"]
+                ev["by_components"][str(c["K"])] = ev["by_components"].get(str(c["K"]), 0) + 1
+                ev["by_type"][c["ctype"] + "/" + c["layout"]] = ev["by_type"].get(c["ctype"] + "/" + c["layout"], 0) + 1
+                if len(p["a"]) >= 3 and sum(1 for s in ck.samples if s.get("binding") == "pair") < 1:
+                    ck.sample({"binding": "pair", "case": c, "iterations": len(p["a"]), "max_rel_param_diff": dg["max_rel_param_diff_over_iterations"]}, limit=8)
+                continue
+            first = f[0]
+            only_decision = first["clauses"] in (["SameDecision"], ["LoopShapeA", "SameDecision"], ["LoopShapeB", "SameDecision"]) or \
+                set(first["clauses"]) <= {"SameDecision", "SameLength", "LoopShapeA", "LoopShapeB"}
+            if dg["near_tie_at_first_decision_difference"] and only_decision:
+                ev["inconclusive_near_ties"] += 1     # rounding-level tie in `new - old < tol`: re-drawn, never a violation
+                if att < 2:
+                    nxt.append((j, att + 1))
+                continue
+            where = "initialisation" if first["i"] == 0 else (f"iteration {first['i']}" if first["i"] <= min(len(p["a"]), len(p["b"])) else "end of fit")
+            ck.violation("replication:" + first["clauses"][0],
+                         f"fit(X, sample_weight=k) and fit(repeat(X, k)) leave the coupling relation at {where}: clauses {first['clauses']} "
+                         f"(all: {[(x['i'], x['clauses']) for x in f][:4]}); iterations A/B = {dg['iters']}, max relative parameter "
+                         f"difference over common iterations {dg['max_rel_param_diff_over_iterations']:.3g}; case {o['case']}", rep)
+        pending = nxt
+    ev["wall_s"] = round(time.time() - t_start, 1)
+    ev["hierarchical_level"] = ("not coupled, deliberately: HierarchicalGaussianMixture scores splits with bic(), which ignores sample weights, and "
+                                "thresholds with the effective sample size, so weighted and replicated data legitimately split differently (probe on "
+                                "the pinned code: n_clusters_ differed in 29 of 60 three-blob data sets with weights 1..5)")
+    ev["rule"] = ("one pair = GaussianMixture(K, type, random_state=s).fit(X, k) vs .fit(repeat(X, k)) on seeded data (d 1-3, 1-3 components, "
+                  "overlapping / separated blobs, integer weights 1..5 uniform / skewed / geometric / one large, 20-120 points); tags = equality "
+                  "up to 1e-9 relative; convergence test decided on exact order ranks; pairs whose k-means++ uniforms fall within rounding of a "
+                  "cumulative-weight boundary are outside the antecedent (excluded, re-drawn); a divergence explained by a rounding-level tie of "
+                  "`new - old < tol` is inconclusive (re-drawn); the hierarchical level is NOT coupled: bic() ignores sample weights and the "
+                  "threshold uses the effective sample size, so K legitimately differs between weighted and replicated data")
+    return ev
+
+
 def corrupt_traces(trace):
     """Binding self-test: single-field corruptions of an accepted trace that HGMTrace must reject."""
     ev = list(trace["ev"])
@@ -925,7 +1277,18 @@ def do_replay(ck, path):
         rec = json.load(f)
     rp = rec["replay"]
     print(f"replaying {rec['key']}: {rec['what'][:200]}")
-    if "state" in rp:      # binding B
+    if "pair" in rp and "k" in rp:      # replication pair: re-run both fits, re-validate with GMMPair.tla
+        c = dict(rp["case"], X=np.array(rp["X"], dtype=float), k=np.array(rp["k"], dtype=int))
+        o = run_pair(c)
+        if o["raised"]:
+            ck.violation("replication:raised", o["raised"], rp)
+        else:
+            p_, dg = project_gmm_pair(np, o)
+            fails, excluded, _ = validate_gmm_pairs([p_])
+            print("GMMPair verdict:", "excluded (pick tie)" if excluded else (fails.get(1) or "coupled"), dg)
+            if fails.get(1) and not excluded:
+                ck.violation(rec["key"], rec["what"], rp)
+    elif "state" in rp:      # binding B
         def fz(v):
             return frozenset(v) if isinstance(v, list) else v
         st = dict(rp["state"])
@@ -999,6 +1362,11 @@ def main():
     mut_futs = [tpool.submit(run_spec_mutant, v) for v in SPEC_MUTANTS]
     nvariants = 1 if quick else 2
     gen_futs = [tpool.submit(run_generator, name, consts, ck.seed, ck.tier, mp_pool, nvariants) for name, consts in spec_jobs(ck.tier)]
+
+    # ---- replication clause: relational (two-run) trace validation, GMMPair.tla
+    rep_ev = replication_part(ck, mp_pool)
+    if ck.violations == 0 and (rep_ev["pairs_coupled"] == 0 or rep_ev["multi_iteration_pairs"] == 0):
+        raise RuntimeError("vacuity: no weighted/replicated pair with several EM iterations was validated")
 
     stats = {"replayed": 0, "with_split": 0, "predictions": 0, "centre_exact": 0}
     nontrivial = set()
@@ -1154,15 +1522,15 @@ def main():
 
     ck.assumptions += [
         "the EM fits / BIC values / child predictions of GaussianMixture are an arbitrary oracle in the model "
-        "(the mixture invariants of the property's first sentence are MONITORED, not decided; weight == replication is not addressed)",
+        "(the algebraic mixture invariants of the property's first sentence are MONITORED, not decided; weight == replication is decided relationally by GMMPair.tla for the mixture model only)",
         "scripted replays use integer sample weights 1..n (exact doubles) as point identities",
         "child clusters keep their indices in increasing order (true by construction of the list comprehensions), so child labels "
         "are bound to points by position in the sorted cluster",
     ]
     cov = {
-        "states": states + tstates,
-        "transitions": transitions + ttrans,
-        "traces_validated_against_impl": stats["replayed"] + accepted,
+        "states": states + tstates + rep_ev["states"],
+        "transitions": transitions + ttrans + rep_ev["transitions"],
+        "traces_validated_against_impl": stats["replayed"] + accepted + rep_ev["pairs_coupled"],
         "evaluations": stats["replayed"] + stats["predictions"] + real_summ["evaluations"] + real_summ["queries"],
         "distinct_nontrivial": len(nontrivial) + real_summ["with_split"],
         "rule": "non-trivial = a behaviour in which at least one split is accepted: distinct oracle logs of the exhaustive HGMSplit runs "
@@ -1179,6 +1547,7 @@ def main():
         "bindingA_traces_submitted": len(traces),
         "binding_mutations_rejected": binding_rejected,
         "binding_mutations_tried": len(corrupted),
+        "replication_pairs(GMMPair.tla)": rep_ev,
         "bindingA_validation": "TLA+ trace spec HGMTrace.tla (conjoins the HGMSplit actions), batched through TLC",
         "bindingA_tlc": {"runs": truns, "states": tstates, "transitions": ttrans, "coverage": {k: list(v) for k, v in tcov.items()}},
         "tlc_coverage": {k: list(v) for k, v in cov_total.items()},
